@@ -9,8 +9,12 @@ from .interp import Program
 from .values import Unsupported
 
 
+def _stats(st):
+    return dict(paths=st['paths'], queries=st['queries'], solver_s=round(st['solver_s'], 2), nontrivial=st.get('nontrivial', 0))
+
+
 def tier_deadline(tier, quick_s, thorough_s):
-    return time.time() + (quick_s if tier == 'quick' else thorough_s)
+    return time.time() + (quick_s if tier == 'quick' else thorough_s) * float(os.environ.get('VERIF_DEADLINE_SCALE', '1'))
 
 
 def check_C11(rep, prog, tier):
@@ -28,6 +32,60 @@ def check_C11(rep, prog, tier):
     A.ob_cmp(rep, prog, N, dl)
     A.ob_cmp_transitive(rep, prog, NT, dl)
     A.ob_append(rep, prog, N - 2, dl)
+    walk_order(rep, prog, tier, dl)
+
+
+WALK_SHAPES_QUICK = [(['F', 'F', 'F'], [1, 2]), (['F', 'S', ('D', [])], [2, 1]),
+                     ([('D', ['F', 'F']), 'F', ('D', ['F'])], [1, 2]),
+                     ([('D', [('D', ['F']), 'F']), ('D', ['F']), 'F'], [1, 1, 2])]
+WALK_SHAPES_THOROUGH = WALK_SHAPES_QUICK + [
+    ([('D', ['F', 'F']), 'F', ('D', ['F'])], [2, 1]), ([('D', ['F', ('D', ['F', 'F'])]), ('D', [('D', ['F'])]), 'F', 'F'], [1, 2]),
+    ([('D', [('D', [('D', ['F'])]), 'F']), ('D', ['F', 'F']), 'S'], [1, 1, 2]), (['F', 'F', 'F', 'F'], [2])]
+
+
+def walk_order(rep, prog, tier, dl):
+    """C11, walk clause: the real source::Iter over a directory model with symbolic names."""
+    from .harness import walk as W
+    from .interp import parallel_explore
+    shapes = WALK_SHAPES_QUICK if tier == 'quick' else WALK_SHAPES_THOROUGH
+    rep.bounds['walk'] = {'shapes (F file, S symlink, (D, children) directory)': [repr(s) for s, l in shapes],
+                          'names': 'one or two symbolic code points each (any scalar value except "/" and NUL, not "." or ".."), distinct inside a directory; readdir order = model order, i.e. arbitrary'}
+    rep.assumptions += ['fs::read_dir / DirEntry / symlink_metadata served by a directory model; entry_from_fs_metadata builds the entry from the model; Exclude::nothing(); no CACHEDIR.TAG']
+    tot = dict(paths=0, queries=0, solver_s=0.0, nontrivial=0)
+    bad, inconc = [], []
+    for shape, lens in shapes:
+        res, st, fns, mods, inc = parallel_explore(prog, W.make_walk(prog, shape, lens), deadline=dl, max_paths=100000, step_budget=400000)
+        for k in tot:
+            tot[k] += st.get(k, 0)
+        rep.functions |= fns
+        rep.models |= mods
+        bad += res['bad']
+        inconc += inc[:2]
+        if res.get('samples') and len(rep.samples) < 6:
+            rep.samples += res['samples'][:1]
+    tot['solver_s'] = round(tot['solver_s'], 2)
+    name = 'the source walk emits every entry once, in strictly increasing documented order (trees of depth <= %d, symbolic names)' % (3 if tier == 'quick' else 4)
+    seen = set()
+    for b in bad:
+        key = 'walk:%s' % ('panic' if b['kind'] == 'panic' else b['problems'][0].split(' ')[0] + '-' + b['problems'][0].split(' ')[1])
+        if key in seen:
+            continue
+        seen.add(key)
+        if b['kind'] == 'panic':
+            rep.violation(key, 'source walk panics: %s' % b['msg'], '', False)
+            continue
+        sc = {'kind': 'walk', 'tree': b['tree'], 'mirsym': {'emitted': b['emitted'], 'problems': b['problems']}}
+        out, path = runner.replay(sc, 'C11_walk')
+        native = out.get('emitted') or []
+        reproduced = bool(out.get('order_violations')) or sorted(native) != sorted(t.rstrip('/@') or '/' for t in b['tree'])
+        rep.violation(key, '%s; tree %r is walked as %r' % (b['problems'][0], b['tree'], native or b['emitted']), path, reproduced)
+    if inconc:
+        rep.inconclusive += ['walk: ' + x for x in inconc[:4]]
+        rep.add_obligation(name, 'inconclusive', tot, inconc[:3])
+    elif bad:
+        rep.add_obligation(name, 'violated', tot, bad[:3])
+    else:
+        rep.add_obligation(name, 'holds', tot)
 
 
 def check_C12(rep, prog, tier):
@@ -62,7 +120,7 @@ def subtree_listing(rep, prog, tier, dl):
     rep.functions |= tot['functions']
     rep.models |= tot['models']
     rep.samples += tot['samples'][:2]
-    st = dict(paths=tot['paths'], queries=tot['queries'], solver_s=round(tot['solver_s'], 2), shapes=tot['shapes_done'])
+    st = dict(paths=tot['paths'], queries=tot['queries'], solver_s=round(tot['solver_s'], 2), nontrivial=tot.get('nontrivial', 0), shapes=tot['shapes_done'])
     name = 'listing a subtree of a stitched version == entries under the subtree by whole components'
     for b in tot['bad'][:1]:
         sc = {'kind': 'stitch', 'scenario': b.get('scenario'), 'expect': b.get('want'), 'mirsym_got': b.get('got')}
@@ -99,7 +157,7 @@ def check_C08(rep, prog, tier):
     rep.functions |= tot['functions']
     rep.models |= tot['models']
     rep.samples += tot['samples']
-    st = dict(paths=tot['paths'], queries=tot['queries'], solver_s=round(tot['solver_s'], 2), shapes=tot['shapes_done'])
+    st = dict(paths=tot['paths'], queries=tot['queries'], solver_s=round(tot['solver_s'], 2), nontrivial=tot.get('nontrivial', 0), shapes=tot['shapes_done'])
     name = 'Stitch::next listing == stitching rule, strictly ordered, terminates (%d bands)' % nb
     seen = set()
     for b in tot['bad']:
@@ -146,7 +204,7 @@ def check_C05(rep, prog, tier):
     rep.functions |= tot['functions']
     rep.models |= tot['models']
     rep.samples += tot['samples'][:2]
-    st = dict(paths=tot['paths'], queries=tot['queries'], solver_s=round(tot['solver_s'], 2), cases=tot['cases_done'])
+    st = dict(paths=tot['paths'], queries=tot['queries'], solver_s=round(tot['solver_s'], 2), nontrivial=tot.get('nontrivial', 0), cases=tot['cases_done'])
     name = 'delete_bands: exactly the requested bands go, kept bands keep every block, no garbage remains, dry run is pure; also after any crash point / read fault'
     seen = set()
     for b in tot['bad']:
@@ -209,7 +267,9 @@ def check_C03(rep, prog, tier):
                   'crash_points': 'before every storage step k of the backup, and inside every write (empty file left); k solver-chosen',
                   'follow_up': 'after each crash: list every version with the real Stitch, run the backup again, check it'}
     rep.assumptions += BC.COMMON_ASSUMPTIONS + ['storage operations are atomic except that a write may leave an empty file']
-    BC.run_cases(rep, prog, cases, dl, 'C03', 'a backup killed at any storage step leaves a consistent, listable, resumable archive')
+    BC.run_cases(rep, prog, cases, dl, 'C03', 'a backup killed at any storage step leaves a consistent, listable, resumable archive',
+                 require=[r'^stop:write:head', r'^stop:write:hunk', r'^stop:write:block', r'^stop:write:tail', r'^stop:create_dir:', r'^empty_stop:write:hunk',
+                          r'^empty_stop:write:block', r'^empty_stop:write:tail', r'^empty_stop:write:head', r'band with several hunks', r'block shared by several files', r'file split over several blocks', r'entry refers to a block stored earlier'])
 
 
 def check_C04(rep, prog, tier):
@@ -223,7 +283,9 @@ def check_C04(rep, prog, tier):
     rep.bounds = {'cases': [BC.case_name(c) for c in cases],
                   'faults': 'exactly one storage step k fails with one of NotFound/Other/PermissionDenied/AlreadyExists; k and kind solver-chosen'}
     rep.assumptions += BC.COMMON_ASSUMPTIONS + ['single fault per run (multi-fault sequences are outside the claim)']
-    BC.run_cases(rep, prog, cases, dl, 'C04', 'any single failing storage step: no panic, no wrong/dangling content recorded, success only if complete')
+    BC.run_cases(rep, prog, cases, dl, 'C04', 'any single failing storage step: no panic, no wrong/dangling content recorded, success only if complete',
+                 require=[r'^fault:write:head', r'^fault:write:hunk', r'^fault:write:block', r'^fault:write:tail', r'^fault:create_dir:', r'^fault:list_dir:',
+                          r'^fault:read:', r'^fault:metadata:', r'result:ok', r'result:err', r'band with several hunks', r'block shared by several files', r'file split over several blocks'])
 
 
 def check_C13(rep, prog, tier):
@@ -241,7 +303,8 @@ def check_C13(rep, prog, tier):
                           fixed_opts=opts))
     rep.bounds = {'cases': [BC.case_name(c) for c in cases]}
     rep.assumptions += BC.COMMON_ASSUMPTIONS + ['the literal JSON and Snappy byte encodings are modelled, not decoded']
-    BC.run_cases(rep, prog, cases, dl, 'C13', 'everything a fault-free backup writes conforms to doc/format.md (independent reading of the store)')
+    BC.run_cases(rep, prog, cases, dl, 'C13', 'everything a fault-free backup writes conforms to doc/format.md (independent reading of the store)',
+                 require=[r'event-free run', r'band with several hunks', r'block shared by several files', r'file split over several blocks', r'entry refers to a block stored earlier'])
     naming_functions(rep, prog)
 
 
@@ -292,7 +355,8 @@ def check_C14(rep, prog, tier):
     cases += _bcases([('F', [1])] if tier == 'quick' else [('FF', [1, 2])], ['crash', 'empty_crash', 'fault'], prior='same')
     rep.bounds = {'cases': [BC.case_name(c) for c in cases]}
     rep.assumptions += BC.COMMON_ASSUMPTIONS
-    BC.run_cases(rep, prog, cases, dl, 'C14', 'unchanged tree: no block written and identical addresses; no stored block is ever written again, also when resuming after a crash')
+    BC.run_cases(rep, prog, cases, dl, 'C14', 'unchanged tree: no block written and identical addresses; no stored block is ever written again, also when resuming after a crash',
+                 require=[r'event-free run', r'^stop:write:block', r'^stop:write:hunk', r'entry refers to a block stored earlier'])
 
 
 def check_C07(rep, prog, tier):
@@ -304,7 +368,8 @@ def check_C07(rep, prog, tier):
     cases += _bcases([('F', [1])], ['fault'], prior='same')
     rep.bounds = {'cases': [BC.case_name(c) for c in cases]}
     rep.assumptions += BC.COMMON_ASSUMPTIONS + ['two racing backups are not explored here']
-    BC.run_cases(rep, prog, cases, dl, 'C07', 'a backup (complete, interrupted, faulted or resumed) only adds files; the new band id is above every existing one')
+    BC.run_cases(rep, prog, cases, dl, 'C07', 'a backup (complete, interrupted, faulted or resumed) only adds files; the new band id is above every existing one',
+                 require=[r'event-free run', r'^stop:write:', r'entry refers to a block stored earlier'])
     band_ids(rep, prog)
 
 
@@ -390,6 +455,7 @@ def check_C18(rep, prog, tier):
             mk = D.make_cb(prog, pat) if which == 'backup-callback' else D.make(prog, pat, which == 'diff+unchanged')
             res, st, fns, mods, inc = parallel_explore(prog, mk, deadline=dl, max_paths=300000, step_budget=600000)
             tot['paths'] += st['paths']
+            tot['nontrivial'] = tot.get('nontrivial', 0) + st.get('nontrivial', 0)
             tot['queries'] += st['queries']
             tot['solver_s'] += st['solver_s']
             rep.functions |= fns
@@ -410,6 +476,7 @@ def check_C18(rep, prog, tier):
         for cbk in (False, True):
             res, st, fns, mods, inc = parallel_explore(prog, D.make_nested(prog, removed, added, cbk), deadline=dl, max_paths=20000)
             tot['paths'] += st['paths']
+            tot['nontrivial'] = tot.get('nontrivial', 0) + st.get('nontrivial', 0)
             tot['queries'] += st['queries']
             tot['solver_s'] += st['solver_s']
             rep.functions |= fns
@@ -492,7 +559,7 @@ def run_restore_obligation(rep, prog, name, mk, dl, prop, judge):
     rep.models |= mods
     if res.get('samples') and len(rep.samples) < 4:
         rep.samples += res['samples'][:1]
-    stats = dict(paths=st['paths'], queries=st['queries'], solver_s=round(st['solver_s'], 2))
+    stats = _stats(st)
     seen = set()
     for b in res['bad']:
         sc = dict(b.get('scenario') or {})
@@ -644,7 +711,8 @@ def check_C01(rep, prog, tier):
     shapes = [('F', [1]), ('FF', [1, 2]), ('FF', [1, 1])] if tier == 'quick' else [('F', [1]), ('FF', [1, 2]), ('FF', [1, 1]), ('FFF', [1, 2, 3]), ('DSF', [0, 0, 1])]
     cases = _bcases(shapes, ['none']) + _bcases([('FS', [1, 0])], ['none'], sym_meta=True)
     rep.bounds['backup_cases'] = [BC.case_name(c) for c in cases]
-    BC.run_cases(rep, prog, cases, dl, 'C01', 'a fault-free backup records every entry with the source\'s metadata and addresses that resolve to exactly the file\'s bytes, without errors')
+    BC.run_cases(rep, prog, cases, dl, 'C01', 'a fault-free backup records every entry with the source\'s metadata and addresses that resolve to exactly the file\'s bytes, without errors',
+                 require=[r'event-free run', r'band with several hunks', r'block shared by several files', r'file split over several blocks'])
 
 
 def _damage_obligation(rep, prog, name, mk, dl, prop, native=None):
@@ -654,7 +722,7 @@ def _damage_obligation(rep, prog, name, mk, dl, prop, native=None):
     rep.models |= mods
     if res.get('samples') and len(rep.samples) < 5:
         rep.samples += res['samples'][:1]
-    stats = dict(paths=st['paths'], queries=st['queries'], solver_s=round(st['solver_s'], 2))
+    stats = _stats(st)
     seen = set()
     for b in res['bad']:
         site = ''
@@ -710,7 +778,14 @@ def _history_native(variant):
     """Native scenario for the histories of harness/damage.py build_history."""
     def f(b):
         newest_closed = b.get('newest_closed', True)
-        if variant == 'single':
+        szs = b.get('sizes') or {}
+        if variant == 'multi':
+            sa, sm, sn = min(szs.get('sizeA', 7), 4096), min(szs.get('sizeM', 9), 4096), min(szs.get('sizeN', 5), 4096)
+            bands = [{'band': 0, 'closed': True, 'entries': [
+                {'path': '/', 'kind': 'Dir', 'mode': 0o755, 'mtime': [1, 0]},
+                {'path': '/a', 'kind': 'File', 'size': sa, 'class': 1, 'mode': 0o644, 'mtime': [2, 0]},
+                {'path': '/m', 'kind': 'File', 'blocks': [sm, sn], 'size': sm + sn, 'class': 5, 'mode': 0o644, 'mtime': [4, 0]}]}]
+        elif variant == 'single':
             bands = [{'band': 0, 'closed': True, 'entries': [
                 {'path': '/', 'kind': 'Dir', 'mode': 0o755, 'mtime': [1, 0], 'hunk': 0},
                 {'path': '/a', 'kind': 'File', 'size': 7, 'class': 1, 'mode': 0o644, 'mtime': [2, 0], 'hunk': 0},
@@ -729,17 +804,30 @@ def _history_native(variant):
         path = b.get('path') or ''
         if path.startswith('d/'):
             # which block: by hash id order of creation (A, B | A, Z, C)
-            order = ['/a', '/b'] if variant == 'single' else ['/a', '/z', '/c']
+            order = ['/a', '/b'] if variant == 'single' else ['/m#0', '/m#1', '/a'] if variant == 'multi' else ['/a', '/z', '/c']
             import re as _re
-            m = _re.match(r'd/\w+/0*([0-9a-f]+)$', path)
+            m = _re.match(r'd/\w+/[0-9a-f]{3}([0-9a-f]{125})$', path)
             idx = int(m.group(1), 16) - 1 if m else 0
             target = 'block:' + order[min(idx, len(order) - 1)]
         else:
             target = path
-        sc = {'kind': 'restore_raw', 'restore_band': b.get('band') if b.get('band') is not None else (0 if variant == 'single' else 1),
+        sc = {'kind': 'restore_raw', 'restore_band': b.get('band') if b.get('band') is not None else (1 if variant == 'two' else 0),
               'damage': [{'file': target, 'how': b.get('how')}], 'bands': bands}
         if b.get('op') == 'validate':
             sc['validate_quick'] = bool(b.get('quick'))
+        if b.get('op') == 'backup':
+            if variant == 'multi':
+                sc['backup_after'] = [{'path': '/', 'kind': 'Dir', 'mode': 0o755, 'mtime': [1, 0]},
+                                      {'path': '/a', 'kind': 'File', 'size': sa, 'class': 1, 'mode': 0o644, 'mtime': [2, 0]},
+                                      {'path': '/m', 'kind': 'File', 'size': sm + sn, 'class': 5, 'mode': 0o644, 'mtime': [4, 0]}]
+            else:
+                sc['backup_after'] = [{'path': '/', 'kind': 'Dir', 'mode': 0o755, 'mtime': [1, 0]},
+                                      {'path': '/a', 'kind': 'File', 'size': 10, 'class': 1, 'mode': 0o644, 'mtime': [2, 0]},
+                                      {'path': '/b', 'kind': 'File', 'size': 12, 'class': 2, 'mode': 0o600, 'mtime': [3, 0]}]
+                for bd in bands:
+                    for e in bd['entries']:
+                        if e['path'] == '/a':
+                            e['size'] = 10 if szs.get('sizeA', 10) == 10 else 7
 
         def judge(out):
             if b['kind'] == 'panic':
@@ -747,7 +835,9 @@ def _history_native(variant):
             if b.get('op') == 'validate':
                 return out.get('validate_ok') is True and not out.get('validate_errors')
             if b.get('op') == 'backup':
-                return True
+                ab = out.get('after_backup') or {}
+                return bool(ab) and (not ab.get('ok') or bool(ab.get('stat_errors')) or bool(ab.get('errors')) or not ab.get('restore_ok')
+                                     or bool(ab.get('restore_errors')) or bool(ab.get('mismatches')))
             return not out.get('errors') or any('altered bytes' in p or 'untouched' in p for p in b.get('problems', []))
         return sc, judge
     return f
@@ -784,9 +874,9 @@ def check_C10(rep, prog, tier):
     for ap in ['', 'a', '/..', '/a//b']:
         _damage_obligation(rep, prog, 'decoded apath %r: restore does not panic or escape' % ap, D.make_decoded(prog, 'restore', ap), dl, 'C10', _decoded_native)
     _damage_obligation(rep, prog, 'unparseable band_format_version: listing does not panic', D.make_decoded(prog, 'list', 'valid', 'x.y'), dl, 'C10', _decoded_native)
-    for variant in ['single', 'two']:
+    for variant in ['single', 'two', 'multi']:
         for op in ['restore', 'backup']:
-            _damage_obligation(rep, prog, 'one damaged file (%s-version history): %s does not panic, intact files are exact, lost files are reported' % (variant, op),
+            _damage_obligation(rep, prog, 'one damaged file (%s history): %s does not panic, intact files are exact, lost files are reported' % ({'single': 'single-version', 'two': 'two-version', 'multi': 'two-block-file'}[variant], op),
                                D.make_contained(prog, op, variant), dl, 'C10', _history_native(variant))
 
 
@@ -805,7 +895,8 @@ def check_C09(rep, prog, tier):
     shapes = [('FF', [1, 2])] if tier == 'quick' else [('FF', [1, 2]), ('FF', [1, 1]), ('FSD', [1, 0, 0])]
     cases = _bcases(shapes, ['none', 'crash', 'empty_crash'], validate_after=True) + _bcases([('F', [1])], ['none'], prior='same', validate_after=True)
     rep.bounds['healthy_cases'] = [BC.case_name(c) for c in cases]
-    BC.run_cases(rep, prog, cases, dl, 'C09', 'validate (full and quick) is silent on archives produced by fault-free and interrupted backups')
+    BC.run_cases(rep, prog, cases, dl, 'C09', 'validate (full and quick) is silent on archives produced by fault-free and interrupted backups',
+                 require=[r'event-free run', r'^stop:write:hunk', r'^stop:write:block', r'^empty_stop:write:hunk'])
 
 
 def check_C02(rep, prog, tier):
@@ -827,7 +918,7 @@ def check_C02(rep, prog, tier):
         rep.models |= mods
         if res.get('samples') and len(rep.samples) < 4:
             rep.samples += res['samples'][:1]
-        stats = dict(paths=st['paths'], queries=st['queries'], solver_s=round(st['solver_s'], 2))
+        stats = _stats(st)
         seen = set()
         for b in res['bad']:
             key = 'history:%s' % b['kind']
@@ -888,7 +979,7 @@ def check_C06(rep, prog, tier):
     rep.functions |= fns
     rep.models |= mods
     rep.samples += res.get('samples', [])[:2]
-    stats = dict(paths=st['paths'], queries=st['queries'], solver_s=round(st['solver_s'], 2))
+    stats = _stats(st)
     name = 'after every interleaving (<= %d preemptions) every complete version refers only to blocks that still exist' % bound
     for b in res['bad']:
         m = b.get('model') or {}
